@@ -13,7 +13,7 @@ CLAIMED = {
          "flush, compaction, restart, readers (seek/end/direction), history log, snapshot policy and concurrency are outside the claim; 1-byte keys/values, at most 3 bulks", "DESIGN.md §4 C10"),
  "C03": ("hash-tree crash consistency on the real AHtree code: for every crash point between the appendable operations of a workload of n appends (sync thresholds 1..2/3, optional explicit syncs) and every combination of which unsynced writes reached each of the three logs (plus a torn last commit entry), reopening succeeds, keeps every entry covered by a completed sync and serves only roots/payloads of the appended sequence",
          "the hash tree plus the write ordering of ImmuStore.sync (value logs, tx log and hash tree are flushed and synced before any commit-log entry is appended, and the commit log is synced before the synced frontier moves), decided on a recording appendable; recovery of the whole store (store.OpenWith), the index, repeated crashes and concurrent committers are outside the claim; crash model and granularity are listed in the evidence", "DESIGN.md §4 C03"),
- "C04": ("what reaches the index: for every bulk of committed transactions within the bounds (bulk size, entries per tx, symbolic keys and non-indexable flags) the plain indexer hands the tree exactly one (key, tx id) per indexable entry, in order, with intact key content, and only advances the logical time when nothing is indexable; scans over a snapshot (real NewKeyReader/Read/ReadBetween with the deleted/expired filters, offset, tx range) return exactly the matching live keys in order; History (store and snapshot) numbers every version by its position in commit order on every page",
+ "C04": ("what reaches the index: for every bulk of committed transactions within the bounds (bulk size, entries per tx, symbolic keys and non-indexable flags) the plain indexer hands the tree exactly one (key, tx id) per indexable entry, in order, with intact key content, and only advances the logical time when nothing is indexable; scans over a snapshot (real NewKeyReader/Read/ReadBetween with the deleted/expired filters, offset, tx range) return exactly the matching live keys in order; History (store and snapshot) numbers every version by its position in commit order on every page; SQL secondary-index entries derived from row values order rows exactly as (indexed columns, primary key) with NULL first",
          "tx reader, semaphore, watchers and the tree (tree reader / tree history under the scan and history harnesses) are stubs/recorders; mapped and injective indexes, seek/end/prefix bounds, pkg/database wrappers, the asynchronous indexer and restart are outside the claim", "DESIGN.md §4 C04"),
  "C06": ("the sequential mechanism behind conditional writes only: a write carrying preconditions (must exist / must not exist / not modified after tx) is admitted iff every precondition holds on the index state it is evaluated on, for every symbolic state and precondition list within the bounds; malformed preconditions are rejected",
          "linearizability of concurrent histories is NOT decided (no schedules); the index is a symbolic model behind stubs of the KeyIndex methods; wait gating of reads/writes not covered yet", "DESIGN.md §4 C06"),
